@@ -46,6 +46,25 @@ pub fn run(tier: Tier, seed: u64) -> i32 {
             }
         }
     });
+    // two histories whose media data passes 4 GiB (sparse stream), judged by the same validator
+    {
+        use rayon::prelude::*;
+        let volume: Vec<crate::props::c13::BigCase> = crate::props::c13::cases(Tier::Quick).into_iter().filter(|c| c.heavy && (c.name.starts_with("mdat_size=2^32+1") || c.name.starts_with("two_tracks_second_crosses"))).collect();
+        let parts: Vec<Local> = volume
+            .par_iter()
+            .map(|c| {
+                let mut l = Local::default();
+                crate::props::c13::judge_as("C02", c, &mut l);
+                l
+            })
+            .collect();
+        let mut agreed = 0;
+        for mut p in parts {
+            agreed += p.nontrivial;
+            std::mem::take(&mut p.violations).drain_into(&rep);
+        }
+        ev.set("volume_histories", json!({"cases": volume.iter().map(|c| c.name.clone()).collect::<Vec<_>>(), "agreed": agreed}));
+    }
     // the configuration grid (brands, kinds, languages, every AAC object type, parameter-set lengths) under the same oracle
     let grid = config_grid();
     let ngrid = grid.len();
